@@ -1019,3 +1019,8 @@ m('F14-broadcast-prefix-treats-none-as-leaf-by-default', 'C09', 'F14', 'ops.broa
 m('F6-transpose-rejects-the-non-empty-outer', 'C10', 'F6', 'tree_transpose/non-empty', 'optree/ops.py',
   """    if outer_size == 0 or inner_size == 0:""",
   """    if outer_size != 0 or inner_size == 0:""")
+m('F11-shortcut-taken-for-two-rests', 'C09', 'F11', '_tree_broadcast_common/shortcuts-keep-every-operand', 'optree/ops.py',
+  """    if len(rests) == 1:
+        return tree_broadcast_common(""",
+  """    if len(rests) == 2:
+        return tree_broadcast_common(""")
